@@ -598,3 +598,8 @@ mod tests {
         );
     }
 }
+
+#[cfg(rustradio_verif)]
+pub mod verif_access {
+    include!(concat!(env!("RUSTRADIO_VERIF_DIR"), "/access/fir.rs"));
+}
